@@ -14,10 +14,10 @@ ASSUMPTIONS = ["nodes have at least K bases (num_kmers = len - K + 1 does not un
 
 def run(F, rep):
     rep.engines.update(["E2-DT", "affine", "E1"])
-    dt_seq.node_kmer_iter_tables(F, rep, "C18.1")
+    rep.run(dt_seq.node_kmer_iter_tables, F, rep, "C18.1")
     # the k-mer reads the iterator relies on (first k-mer in into_iter, re-synchronisation after a long skip in nth): the view remap of
     # DnaStringSlice::get_kmer and the block walk of DnaString::get_kmer (every offset for the k-mer types wider than one word)
-    dt_seq.slice_view_tables(F, rep, "C18.6")
+    rep.run(dt_seq.slice_view_tables, F, rep, "C18.6")
     lemmas.dnastring_lemmas(F, rep, which={"get_kmer"},
                             kmer_positions=(lambda K: range(0, 70)) if rep.tier == "thorough" else (lambda K: range(0, 70) if K > 32 else (0, 1, 17, 31, 32, 33, 63)))
     vis = structural.field_vis(F, "graph::NodeKmerIter") or {}
